@@ -77,7 +77,7 @@ def trace_cfg(nsrc, nsea, nbor, devs=()):
     return '\n'.join(lines) + '\n'
 
 
-def model_check(sl, formulas, export='Export', timeout=1500):
+def model_check(sl, formulas, export='Export', timeout=6000):
     res = tlc.run('MC_MibCompile', 'gen.cfg', files={'gen.cfg': cfg_text(sl, formulas, export)}, timeout=timeout, deadlock=True, coverage=True)
     return res
 
